@@ -89,6 +89,11 @@ def absorb_helpers(model, packages=("diameter.node", "diameter.message._base",
                     for m2 in model.modules.values():
                         for n in ast.walk(m2.tree):
                             if isinstance(n, ast.Attribute) and n.attr == name:
+                                # `self.<name>` in another module is that module's own helper of
+                                # the same name (sibling command modules are written alike)
+                                if m2 is not mod and isinstance(n.value, ast.Name) and n.value.id == "self" \
+                                        and any(name in c2.methods for c2 in m2.classes.values()):
+                                    continue
                                 ext += 1
                     if not sites or other_refs != len(sites) or ext != len(sites):
                         continue
